@@ -208,7 +208,7 @@ func inventory(m *am.Module, pm *ir.Module, aliasedTypes int) string {
 		namedMD[n.Name] = true
 	}
 	ulo := len(m.UseListOrders)
-	pulo := len(pm.UseListOrders)
+	pulo := len(pm.UseListOrders) + len(pm.UseListOrderBBs)
 	for _, f := range m.Funcs {
 		ulo += len(f.UseListOrders)
 	}
